@@ -76,3 +76,52 @@ class parse_satoshi_string:
         n = cs_value(d, p)
         start = p + cs_len(d[p])
         return (result == d[start:start + n], fpos(f) == start + len(result), fdata(f) == d)
+
+
+# ---------------------------------------------------------------- parse(stream(v)) == v for the two primitive codecs
+import io as _io
+from pycoin.satoshi.satoshi_int import parse_satoshi_int as _psi, stream_satoshi_int as _ssi
+from pycoin.satoshi.satoshi_string import parse_satoshi_string as _pss, stream_satoshi_string as _sss
+
+
+def roundtrip_satoshi_int(v, rest):
+    f = _io.BytesIO()
+    _ssi(f, v)
+    g = _io.BytesIO(f.getvalue() + rest)
+    return _psi(g), g.tell()
+
+
+def roundtrip_satoshi_string(v, rest):
+    f = _io.BytesIO()
+    _sss(f, v)
+    g = _io.BytesIO(f.getvalue() + rest)
+    return _pss(g), g.tell()
+
+
+@contract("contracts.c07_prims:roundtrip_satoshi_int")
+class c_roundtrip_satoshi_int:
+    """a compact-size count written and read back (whatever follows it): same value, exactly its bytes consumed"""
+    props = ["C07", "C16"]
+    sig = dict(v=Int(0, 2 ** 64 - 1, interesting=[0, 252, 253, 65535, 65536, 2 ** 32 - 1, 2 ** 32]), rest=Bytes(sample_max=3))
+
+    def hints(v, rest):
+        cs_roundtrip(v, b"", rest)
+
+    def ensures_same(v, rest, result):
+        return (result[0] == v, result[1] == len(compact_size(v)))
+
+
+@contract("contracts.c07_prims:roundtrip_satoshi_string")
+class c_roundtrip_satoshi_string:
+    props = ["C07", "C16"]
+    sig = dict(v=Bytes(sample_max=300, interesting=[b"", bytes(252), bytes(253)]), rest=Bytes(sample_max=3))
+    options = {'reveal': ['varstr']}
+
+    def requires(v, rest):
+        return len(v) < 2 ** 32
+
+    def hints(v, rest):
+        cs_roundtrip(len(v), b"", v + rest)
+
+    def ensures_same(v, rest, result):
+        return (result[0] == v, result[1] == len(varstr(v)))
